@@ -51,6 +51,8 @@ type Node struct {
 	facts           *facts
 	preBlockOK      bool
 	lastBlockObj    *Block
+	lastPreBlockObj *PreBlock
+	accepted        bool // the application accepted a block since the last Start/Reset (harness record, independent of the library's own flag)
 	scriptCrashSends int // scripts: the first incarnation crashes after this many recipients of its first broadcast
 	lastProposal    *Header
 	lastProposalView byte
@@ -273,6 +275,7 @@ func (n *Node) call(st *Step, fn func()) {
 	if st.Op == OpStart || st.Op == OpReset {
 		n.initTip, n.initTipHash, n.initTS = n.tip().Idx, n.tip().Hash(), st.Arg
 		n.preBlockOK = false
+		n.accepted = false
 		n.facts.anyEarly = false
 		n.decidedInInit = 0
 		n.facts.gc(n.initTip + 1)
@@ -657,7 +660,13 @@ func (n *Node) cbNewBlock(c *dbft.Context[Hash]) dbft.Block[Hash] {
 	copy(hs, c.TransactionHashes)
 	b := &Block{Header: Header{Idx: c.BlockIndex, Prev: c.PrevHash, TS: c.Timestamp, Nonce: c.Nonce, TxHashes: hs}, owner: n}
 	if n.s.sc.amevAt(c.BlockIndex) {
+		// the final block is a function of the processed pre-block (as in the
+		// reference NewAMEVBlock): its transactions are the pre-block's
 		b.Final = true
+		if pb, ok := c.PreBlock().(*PreBlock); ok && pb != nil {
+			b.txs = append([]dbft.Transaction[Hash](nil), pb.txs...)
+			b.fromPre = true
+		}
 	}
 	n.out(Out{Kind: ONewBlock, Hdr: &b.Header, Hash: b.Hash()})
 	return b
@@ -677,6 +686,7 @@ func (n *Node) noteSetData(b *PreBlock) { n.out(Out{Kind: OSetData, Hdr: &b.Head
 func (n *Node) cbProcessPreBlock(b dbft.PreBlock[Hash]) error {
 	s := n.s
 	bb := b.(*PreBlock)
+	n.lastPreBlockObj = bb
 	fail := s.sc.ProcErrPM > 0 && s.tape.Chance(n.stream(SApp), s.sc.ProcErrPM, 1000)
 	n.out(Out{Kind: OProcessPreBlock, Hdr: &bb.Header, Hash: bb.preHash(), OK: !fail})
 	if fail {
@@ -706,6 +716,7 @@ func (n *Node) cbProcessBlock(b dbft.Block[Hash]) error {
 		s.fault("process_block_error")
 		return errProc
 	}
+	n.accepted = true
 	n.appendBlock(bb)
 	if n.crashInProcess == 2 { // crash right after the block is persisted
 		n.crashing = true
